@@ -15,7 +15,7 @@ LEVEL = "exploration"
 RULE = (
     "Cases are constraints `lhs cmp rhs` (cmp in = != and the eight signed/unsigned orders) whose lhs is one of the shapes the balancer "
     "handles -- x, x+-c, c-x, x+y, x-y, extract(h,l,x), concat(0,x), concat(x,y), concat(c,x), zext/sext(k,x), x & mask, x << k, x >> k, "
-    "ite(cond,x,y), ~x, -x, bswap(x) (16 bit) and two-level compositions -- with rhs a constant or a variable, plus conjunctions, "
+    "ite(cond,x,y), ~x, -x, bswap(x) (16 bit) and two-level compositions -- with rhs a constant or a variable, three- and four-level nestings of the operators the balancer moves across a comparison (extensions, concatenation with zeros, add / sub / and of edge constants, shifts, extraction) over a 3-4 bit variable, plus conjunctions, "
     "disjunctions and negations of two such; 1-2 variables of width 3/4/6/8 (one 16-bit variable for bswap). Complete enumeration of "
     "(shape, comparison, constants) at width 3 for the one-variable shapes, Hypothesis generation otherwise. Entry points "
     "claripy.constraint_to_si and backends.vsa.constraint_to_si; end to end SolverReplacement(complex_auto_replace) and SolverHybrid "
@@ -199,6 +199,27 @@ def enum_cases(n=3):
                 yield {"tree": (cmp_, lhs, _c(c, w)), "shape": name}
 
 
+def enum_shift_cases():
+    """A shift over an extended variable with or without an added / subtracted constant in between, every shift amount, every
+    comparison, constants at the edges: the shapes on which the balancer decides whether a shift can be undone."""
+    for n in (3, 4):
+        v = ("var", f"x_{n}", n)
+        for k in (1, 2, 3, 4):
+            w = n + k
+            mw = (1 << w) - 1
+            inners = [("zext", k, v), ("concat", _c(0, k), v), ("sext", k, v)]
+            for base in (("zext", k, v), ("concat", _c(0, k), v)):
+                for c in (1, 2, mw):
+                    inners += [("bvadd", base, _c(c, w)), ("bvsub", base, _c(c, w))]
+            for inner in inners:
+                for s_ in range(1, w):
+                    for sh in ("bvshl", "bvlshr"):
+                        lhs = (sh, inner, _c(s_, w))
+                        for cmp_ in CMPS:
+                            for c in sorted({0, 1, 1 << s_, mw, 1 << (w - 1), (1 << s_) - 1}):
+                                yield {"tree": (cmp_, lhs, _c(c & mw, w)), "shape": "shift-layer"}
+
+
 @st.composite
 def gen_case(draw):
     n = draw(st.sampled_from((3, 4, 6, 8, 8, 4)))
@@ -208,9 +229,31 @@ def gen_case(draw):
     m = (1 << n) - 1
     consts = [draw(st.sampled_from(sorted({0, 1, 2, 3, m, m - 1, 1 << (n - 1), (1 << (n - 1)) - 1, 5 & m, 0xF & m, 0xF0 & m}))), draw(st.integers(0, m))]
 
+    def layered():
+        """2-4 layers of the operators the balancer moves across a comparison, each with constants at the edges of what the layer
+        below can reach (1, 2, powers of two, all ones)."""
+        v = ("var", f"x_{min(n, 4)}", min(n, 4))
+        e = v
+        for _ in range(draw(st.integers(2, 4))):
+            w = ir.width(e)
+            mw = (1 << w) - 1
+            cs = sorted({1, 2, mw, mw - 1, 1 << (w - 1), (1 << (w - 1)) - 1, 3 & mw})
+            opts = [("bvadd", e, _c(draw(st.sampled_from(cs)), w)), ("bvsub", e, _c(draw(st.sampled_from(cs)), w)), ("bvsub", _c(draw(st.sampled_from(cs)), w), e),
+                    ("bvand", e, _c(draw(st.sampled_from(cs)), w))]
+            if w <= 8:
+                k = draw(st.integers(1, 4))
+                opts += [("zext", k, e), ("zext", k, e), ("sext", k, e), ("concat", _c(0, k), e), ("concat", e, _c(0, k))]
+            if w >= 2:
+                opts += [("bvshl", e, _c(draw(st.integers(1, w - 1)), w)), ("bvshl", e, _c(draw(st.integers(1, w - 1)), w)), ("bvlshr", e, _c(draw(st.integers(1, w - 1)), w)),
+                         ("extract", draw(st.integers(0, w - 1)), 0, e)]
+            e = draw(st.sampled_from(opts))
+        return e
+
     def one():
         name, lhs = draw(st.sampled_from(lhs_shapes(n, x, y, consts)))
         if draw(st.integers(0, 3)) == 0:
+            lhs = layered()
+        elif draw(st.integers(0, 3)) == 0:
             # second level: wrap the shape again
             w = ir.width(lhs)
             lhs = draw(st.sampled_from([("bvadd", lhs, _c(draw(st.integers(0, (1 << w) - 1)), w)), ("zext", 2, lhs), ("bvand", lhs, _c(draw(st.integers(0, (1 << w) - 1)), w)),
@@ -273,6 +316,10 @@ def shards(tier, seed):
     parts = 3
     for p in range(parts):
         out.append({"mode": "enum", "part": p, "parts": parts})
+    sparts = 8
+    for p in range(sparts if tier == "thorough" else 4):
+        # quick: a seed-selected half of the shift-layer family
+        out.append({"mode": "enum-shift", "part": (p * 2 + seed) % sparts if tier == "quick" else p, "parts": sparts})
     return out
 
 
@@ -302,6 +349,17 @@ def run_shard(shard, ctx):
         ctx.extra["enumerated_width3_constraints"] = n
         ctx.extra["exhaustive"] = True
         ctx.extra["exhaustive_subdomain"] = "every one-variable shape x every comparison x every constant at width 3 (all 8 assignments each)"
+        return
+    if shard["mode"] == "enum-shift":
+        n = 0
+        for k, case in enumerate(enum_shift_cases()):
+            if k % shard["parts"] != shard["part"]:
+                continue
+            if ctx.out_of_time():
+                return
+            body({**case, "e2e": False})
+            n += 1
+        ctx.extra["enumerated_shift_layer_constraints"] = n
         return
     strat = gen_case() if shard["mode"] == "gen" else bswap_case()
     hyp.run(strat, shard["n"], shard["hseed"], body, ctx)
